@@ -94,6 +94,20 @@ def havoc_tables(ctx, tag='pre', k=3):
     return out
 
 
+def with_prestate(ctx, fn, tag='pre', k=3):
+    """fn(tables) evaluated from an arbitrary state of the parser tables.  Symbolic mode: HavocMaps.  Concrete mode: a first
+    pass on HavocMaps with the replayed Booleans finds out which entries the run consults, the result comes from a second
+    pass on real dicts holding exactly those entries."""
+    tabs = havoc_tables(ctx, tag, k)
+    if ctx.symbolic:
+        return fn(tabs)
+    try:
+        fn(tabs)
+    except Exception:       # noqa
+        pass
+    return fn({n: dict(t.initial) for n, t in tabs.items()})
+
+
 def parser_on(tables):
     """a TracesParser over the given table objects (HavocMaps, SymMaps or real dicts)"""
     from pykdebugparser.traces_parser import TracesParser
@@ -240,12 +254,13 @@ class Outcome:
         self.pieces = pieces
 
 
-def run_window(ctx, name, a, r, lookups=(), tid=TID, ts0=100, code_name=None, lost=(), nested=0, prior=()):
+def run_window(ctx, name, a, r, lookups=(), tid=TID, ts0=100, code_name=None, lost=(), nested=0, prior=(), tables=None):
     """START(a) [lookup records] END(r) of decoder `name` on one thread through the real pipeline.
     lost: word lists of earlier STARTs of the same code on the same thread whose END never arrives
     nested: number of unrelated single records (a disk-I/O code, concrete words) the thread logs inside the window
     prior: (name, a, r) windows the same parser handled before on the same thread; what they raise is swallowed, as a caller
-           that logs the error and goes on with the next record would"""
+           that logs the error and goes on with the next record would
+    tables: the four parser tables to start from (e.g. havoc_tables(ctx): an arbitrary pre-state) instead of empty ones"""
     by_id, by_name = codes()
     eid = by_name[code_name or name]
     lid = by_name['VFS_LOOKUP']
@@ -262,7 +277,7 @@ def run_window(ctx, name, a, r, lookups=(), tid=TID, ts0=100, code_name=None, lo
             evs.append(make_event(ts, [13 + (i & 1), 777, i, 3], tid, nid))
             ts += 1
     evs.append(make_event(ts + 1, r, tid, eid | K.DBG_FUNC_END))
-    p = new_parser()
+    p = new_parser() if tables is None else parser_on(tables)
     for i, (pn, pa, pr) in enumerate(prior):
         pid_ = by_name[pn]
         for ev in (make_event(ts0 - 50 + 2 * i, pa, tid, pid_ | K.DBG_FUNC_START), make_event(ts0 - 49 + 2 * i, pr, tid, pid_ | K.DBG_FUNC_END)):
